@@ -473,7 +473,7 @@ func isNumericText(s string) bool {
 
 func clearlyNotNumeric(s string) bool {
 	if s == "" {
-		return false
+		return true // text without a single digit is not a numeric string
 	}
 	l := strings.ToLower(strings.TrimLeft(s, "+-"))
 	if strings.HasPrefix(l, "inf") || strings.HasPrefix(l, "nan") || strings.HasPrefix(l, "snan") || strings.HasPrefix(l, "qnan") {
@@ -737,7 +737,7 @@ func runC18(w *core.W) {
 			w.Count("bitop_exponent_spellings")
 		}
 		// strings for toFloat / toInt / finite
-		strs := []string{a, "+" + pos, pos + "e2", "abc", "12abc", "1,5", " 1", "1 ", "", "0x10", "1e", "--1", "1.2.3", "one", "1_000", "٣", "１２", "Infinity", "NaN", "-", ".", "e5", "1e5", "-.5", "5."}
+		strs := []string{a, "+" + pos, pos + "e2", "abc", "12abc", "1,5", " 1", "1 ", "", "0x10", "1e", "--1", "1.2.3", "one", "1_000", "٣", "１２", "Infinity", "NaN", "-", ".", "e5", "1e5", "-.5", "5.", " ", "  ", "\t", "\n", " \t ", "\u00a0", "\u3000"}
 		s := strs[r.Intn(len(strs))]
 		run(&NumFnCase{Fn: "toFloat", Args: []string{s}, Str: true})
 		run(&NumFnCase{Fn: "finite", Args: []string{s}, Str: true})
